@@ -335,10 +335,11 @@ pub fn cfgs(tier: &str) -> Vec<(ArpCfg, Bounds)> {
     let q = tier == "quick";
     let k = if q { 4 } else { 6 };
     let wall = Duration::from_secs(if q { 20 } else { 300 });
+    let sd = if q { 2 } else { 3 };
     let bounds = move |lossy: usize| {
-        Bounds::new(lossy + 2)
+        Bounds::new(lossy + sd)
             .cap(KIND_FRAME, lossy)
-            .sched(2)
+            .sched(sd)
             .wall(wall)
     };
     let base = ArpCfg {
